@@ -9,16 +9,19 @@ import (
 type extent struct {
 	s, e int64
 	fn   string
+	op   int // trace op during which the extent was first written
 }
 
-// ClobberClass replays a write log and looks for the first write that
-// straddles extents established by earlier writes: it partially covers space
-// last written for another structure. In-place rewrites (inside one extent),
-// rewrites that cover whole adjacent extents exactly, and growth into fresh
-// space are legitimate. Returns "" when nothing straddles.
+// ClobberClass replays a write log and looks for the first write that GROWS a
+// structure over a structure created by a later operation: the write starts
+// exactly where an existing extent E1 starts, is longer than E1, and reaches
+// into an extent E2 that was first written during a later trace operation than
+// E1 (in-place growth of an object header over the object allocated after it).
+// In-place rewrites of the same size, growth into fresh space, and writes that
+// merely span pieces created by the same operation are legitimate.
 //
-// This is used only to attribute an oracle failure (file no longer opens) to
-// the writer that caused it, so that one root cause maps to one signature.
+// It is used to attribute an oracle failure to its cause, so that one root
+// cause maps to one signature whatever the consequence was.
 func ClobberClass(log []disk.LogEntry) string {
 	var ext []extent
 	for _, le := range log {
@@ -26,7 +29,6 @@ func ClobberClass(log []disk.LogEntry) string {
 			continue
 		}
 		s, e := le.Off, le.Off+int64(le.Len)
-		// overlapping extents
 		lo := sort.Search(len(ext), func(i int) bool { return ext[i].e > s })
 		hi := lo
 		for hi < len(ext) && ext[hi].s < e {
@@ -35,38 +37,21 @@ func ClobberClass(log []disk.LogEntry) string {
 		if lo == hi {
 			ext = append(ext, extent{})
 			copy(ext[lo+1:], ext[lo:])
-			ext[lo] = extent{s, e, le.Fn}
+			ext[lo] = extent{s, e, le.Fn, le.OpIdx}
 			continue
 		}
-		first, last := ext[lo], ext[hi-1]
-		switch {
-		case hi-lo == 1 && s >= first.s && e <= first.e:
-			// inside one extent
-		case s == first.s && e >= last.e:
-			// covers whole extents exactly from a boundary; growth past the end
-			// is fine only if it does not enter another extent (it doesn't: hi is exclusive)
-			if hi-lo > 1 || e > last.e {
-				// growth of one structure over following structures written by other functions
-				if hi-lo > 1 && !sameFn(ext[lo:hi]) {
+		first := ext[lo]
+		if s == first.s && e > first.e {
+			for _, x := range ext[lo+1 : hi] {
+				if x.op > first.op {
 					return "clobber-by:" + le.Fn
 				}
 			}
-			ne := extent{s, e, le.Fn}
-			ext = append(ext[:lo], append([]extent{ne}, ext[hi:]...)...)
-		case s >= first.s && e <= last.e && hi-lo > 1 && sameFn(ext[lo:hi]):
-			// spans pieces of the same structure
-		default:
-			return "clobber-by:" + le.Fn
+		}
+		// merge what the write covers into the first extent when it extends it
+		if s == first.s && e > first.e && hi-lo == 1 {
+			ext[lo].e = e
 		}
 	}
 	return ""
-}
-
-func sameFn(x []extent) bool {
-	for i := 1; i < len(x); i++ {
-		if x[i].fn != x[0].fn {
-			return false
-		}
-	}
-	return true
 }
